@@ -343,6 +343,21 @@ class Run:
         return 1 if self.violations else 0
 
 
+def coqchk(r, proof_targets, allow_axioms=()):
+    """thorough tier: re-check the compiled proofs and everything they depend on with the independent checker"""
+    mods = ["OxVerif." + t[len("theories/"):-3].replace("/", ".") for t in proof_targets if t.startswith("theories/")]
+    rc, out = sh(["coqchk", "-o", "-silent"] + COQ_INC + mods, timeout=2400, cwd=COQ)
+    res = {}
+    for key in ("Axioms", "Constants/Inductives relying on type-in-type", "Constants/Inductives relying on unsafe (co)fixpoints",
+                "Inductives whose positivity is assumed"):
+        m = re.search(re.escape("* " + key) + r":\s*(.*?)(?=\n\s*\n|\n\* |\Z)", out, flags=re.S)
+        res[key] = re.sub(r"\s+", " ", m.group(1)).strip() if m else "?"
+    r.extra_cov["coqchk"] = {"modules": mods, "exit": rc, "report": res}
+    bad = [k for k, v in res.items() if v != "<none>" and not (k == "Axioms" and all(a.split(".")[-1] in allow_axioms for a in v.split()))]
+    if rc != 0 or bad:
+        r.proof_broken.append("coqchk: " + ("exit %d; " % rc if rc else "") + "; ".join("%s: %s" % (k, res[k][:120]) for k in bad))
+
+
 def standard(r, prop, proof_targets, model_targets, channels, classify=None, allow_axioms=(), pre=None,
              harness_timeout=1500, eval_timeout=1200, extra=()):
     """The common flow: proofs -> audit -> harness -> Coq evaluation of every channel -> triage.
@@ -351,6 +366,8 @@ def standard(r, prop, proof_targets, model_targets, channels, classify=None, all
     ok = r.coq_make(proof_targets)
     if ok:
         r.props_compile(allow_axioms)
+        if r.tier == "thorough" and not r.replay:
+            coqchk(r, proof_targets, allow_axioms)
     else:
         r.coq_make(model_targets)      # models must still evaluate when a proof breaks
         r.proof_broken = r.proof_broken[:1]
